@@ -25,10 +25,12 @@ from pyabv.run import HOME, PYTHON, REPO, jsonable
 
 RULE = (
     "cases = (source text, input record) pairs with >= 1 splitter field; each is evaluated at several points of an "
-    "in-process history (2..4 evaluator instances per source, shuffled and reversed call orders, recompile to another "
+    "in-process history (2..4 evaluator instances per source, shuffled and reversed call orders, families of values that "
+    "compare equal but print differently, recompile to another "
     "text and back, further constructions, calls on other programs in between, two sources sharing one experiment "
     "name) and by child interpreters (PYTHONHASHSEED 0/1/max/random, LANG/LC_ALL C / POSIX / C.UTF-8 / nonexistent, "
-    "PYTHONUTF8 0/1, setlocale, cwd / and temp dirs incl. a non-ASCII name, -O, -X dev, TZ). distinct_nontrivial = "
+    "PYTHONUTF8 0/1, setlocale, cwd / and temp dirs incl. a non-ASCII name, -O, -X dev, TZ; half of the children evaluate "
+    "the corpus in reverse order first). distinct_nontrivial = "
     "distinct pairs whose routed return has >= 2 positive-weight groups and that were observed by >= 2 instances and "
     ">= 2 processes."
 )
@@ -41,15 +43,18 @@ QUICK_SHARDS = 2
 MIN_NONTRIVIAL = {"quick": 700, "thorough": 25000}
 
 
+EQUAL_FAMILIES = [(1, 1.0, True), (0, 0.0, -0.0, False), (7, 7.0), (2**53, float(2**53)), (-1, -1.0), (10**22, 1e22)]
+
+
 def child_envs(quick):
     base = [
         ("hashseed-0", dict(PYTHONHASHSEED="0"), [], None),
-        ("hashseed-1", dict(PYTHONHASHSEED="1"), [], None),
+        ("hashseed-1", dict(PYTHONHASHSEED="1"), ["--reverse-first"], None),
         ("hashseed-max", dict(PYTHONHASHSEED="4294967295"), [], None),
         ("hashseed-random-a", dict(PYTHONHASHSEED="random"), [], None),
-        ("hashseed-random-b", dict(PYTHONHASHSEED="random"), [], None),
+        ("hashseed-random-b", dict(PYTHONHASHSEED="random"), ["--reverse-first"], None),
         ("locale-C-noutf8", dict(LANG="C", LC_ALL="C", PYTHONUTF8="0", PYTHONCOERCECLOCALE="0", PYTHONHASHSEED="7"), [], None),
-        ("cwd-nonascii", dict(PYTHONHASHSEED="11"), [], "tmp-nonascii"),
+        ("cwd-nonascii", dict(PYTHONHASHSEED="11"), ["--reverse-first"], "tmp-nonascii"),
         ("setlocale+dev", dict(LANG="C.UTF-8", LC_ALL="C.UTF-8", PYTHONHASHSEED="123"), ["-X", "dev", "--setlocale"], None),
     ]
     more = [
@@ -58,12 +63,12 @@ def child_envs(quick):
         ("utf8-mode", dict(PYTHONUTF8="1", LANG="C", PYTHONHASHSEED="5"), [], None),
         ("cwd-root", dict(PYTHONHASHSEED="random"), [], "/"),
         ("cwd-tmp", dict(PYTHONHASHSEED="random"), [], "tmp"),
-        ("optimize", dict(PYTHONHASHSEED="3"), ["-O"], None),
+        ("optimize", dict(PYTHONHASHSEED="3"), ["-O", "--reverse-first"], None),
         ("optimize2", dict(PYTHONHASHSEED="4"), ["-OO"], None),
         ("tz", dict(TZ="Asia/Kolkata", PYTHONHASHSEED="random"), [], None),
         ("no-user-site+isolated-ish", dict(PYTHONNOUSERSITE="1", PYTHONHASHSEED="random"), ["-s"], None),
         ("hashseed-random-c", dict(PYTHONHASHSEED="random"), [], None),
-        ("hashseed-2", dict(PYTHONHASHSEED="2"), [], None),
+        ("hashseed-2", dict(PYTHONHASHSEED="2"), ["--reverse-first"], None),
         ("lc-ctype-only", dict(LC_CTYPE="C", PYTHONHASHSEED="random", PYTHONUTF8="0", PYTHONCOERCECLOCALE="0"), [], None),
     ]
     return base if quick else base + more
@@ -75,8 +80,8 @@ def run_child(name, env_over, pyflags, cwd_kind, corpus_path, outdir):
         env.pop(k, None)
     env.update(env_over)
     env["PYTHONPATH"] = f"{HOME}:{os.path.join(REPO, 'src')}"
-    flags = [f for f in pyflags if f != "--setlocale"]
-    extra = ["--setlocale"] if "--setlocale" in pyflags else []
+    flags = [f for f in pyflags if f not in ("--setlocale", "--reverse-first")]
+    extra = [f for f in ("--setlocale", "--reverse-first") if f in pyflags]
     out = os.path.join(outdir, name + ".json")
     tmp = None
     if cwd_kind == "tmp":
@@ -134,6 +139,16 @@ def run(ctx):
             for s in gp.splitter_only:
                 if rnd.random() < 0.5:
                     e[s] = rnd.choice(SPLITTER_VALUES)
+        # families of values that compare equal but print differently (1 / 1.0 / True ...): a cache keyed on equality
+        # would make the first spelling seen decide for the others, i.e. the answer would depend on the call history
+        if gp.splitter_only and envs:
+            s = sorted(gp.splitter_only)[0]
+            base = dict(rnd.choice(envs))
+            for fam in EQUAL_FAMILIES:
+                for v in fam:
+                    e = dict(base)
+                    e[s] = v
+                    envs.append(e)
         envs = [e for e in envs if selection(prog, e) is not None]
         if envs:
             corpus.append((gp, prog, envs))
